@@ -16,6 +16,7 @@ package c05
 // other difference on the same input is still reported.
 
 import (
+	"sort"
 	"strings"
 	"unicode"
 
@@ -50,6 +51,9 @@ const (
 	fArabicMCM        = "C05-arabic-mcm-below-class"
 	fExtentsOther     = "C05-glyph-extents-other"
 	fVarRounding      = "C05-variable-metrics-rounding"
+	fVOriginFloor     = "C05-vorigin-half-diff-truncation"
+	fVorgVar          = "C05-vorg-variation-delta-missing"
+	fPanicReverseIdx  = "C05-panic-cursor-after-reverse-lookup"
 )
 
 // unconditional (skew / loader / unspecified) classes
@@ -57,6 +61,7 @@ const (
 	sArabicFallback = "skew:arabic-fallback-synthesis"
 	sUseUnassigned  = "skew:use-unassigned-is-word-joiner"
 	sOpBudget       = "unspecified:operation-budget-exhausted"
+	sAATRanges      = "skew:aat-feature-ranges"
 	lBitmapOnly     = "loader:bitmap-only-extents"
 )
 
@@ -197,6 +202,25 @@ func graphemesReversed(script language.Script, dir harfbuzz.Direction) bool {
 	return false
 }
 
+// useScripts: the scripts the Universal Shaping Engine may handle (ot_shape_complex.go).
+var useScripts = map[language.Script]bool{
+	language.Bengali: true, language.Devanagari: true, language.Gujarati: true, language.Gurmukhi: true, language.Kannada: true,
+	language.Malayalam: true, language.Oriya: true, language.Tamil: true, language.Telugu: true,
+	language.Tibetan: true, language.Mongolian: true, language.Sinhala: true, language.Buhid: true, language.Hanunoo: true, language.Tagalog: true,
+	language.Tagbanwa: true, language.Limbu: true, language.Tai_Le: true, language.Buginese: true, language.Kharoshthi: true, language.Syloti_Nagri: true,
+	language.Tifinagh: true, language.Balinese: true, language.Nko: true, language.Phags_Pa: true, language.Cham: true, language.Kayah_Li: true,
+	language.Lepcha: true, language.Rejang: true, language.Saurashtra: true, language.Sundanese: true, language.Egyptian_Hieroglyphs: true,
+	language.Javanese: true, language.Kaithi: true, language.Meetei_Mayek: true, language.Tai_Tham: true, language.Tai_Viet: true, language.Batak: true,
+	language.Brahmi: true, language.Mandaic: true, language.Chakma: true, language.Miao: true, language.Sharada: true, language.Takri: true,
+	language.Duployan: true, language.Grantha: true, language.Khojki: true, language.Khudawadi: true, language.Mahajani: true, language.Manichaean: true,
+	language.Modi: true, language.Pahawh_Hmong: true, language.Psalter_Pahlavi: true, language.Siddham: true, language.Tirhuta: true, language.Ahom: true,
+	language.Multani: true, language.Adlam: true, language.Bhaiksuki: true, language.Marchen: true, language.Newa: true, language.Masaram_Gondi: true,
+	language.Soyombo: true, language.Zanabazar_Square: true, language.Dogra: true, language.Gunjala_Gondi: true, language.Hanifi_Rohingya: true,
+	language.Makasar: true, language.Medefaidrin: true, language.Old_Sogdian: true, language.Sogdian: true, language.Elymaic: true,
+	language.Nandinagari: true, language.Nyiakeng_Puachue_Hmong: true, language.Wancho: true, language.Chorasmian: true, language.Dives_Akuru: true,
+	language.Khitan_Small_Script: true, language.Yezidi: true,
+}
+
 var mcmBelow = map[rune]bool{0x0655: true, 0x06E3: true, 0x08CF: true, 0x08D3: true}
 
 func coordsSet(got portResult) bool { return got.font != nil && len(got.font.Face().Coords()) != 0 }
@@ -260,6 +284,13 @@ func knownPanic(fe *fontEntry, c *Case, err error) string {
 		(strings.HasSuffix(pe.stack[0], "reverseRange") || strings.HasSuffix(pe.stack[0], "deleteGlyphsInplace")) && ev.Known(fPanicPositions) {
 		return fPanicPositions
 	}
+	// finding: after a reverse chaining substitution (applied backward) the buffer cursor is left
+	// at -1; the next cluster merge that compares positions with the cursor (deleting default
+	// ignorables at the start of the buffer) indexes Info[-1]. Upstream's unsigned cursor wraps
+	// around instead.
+	if strings.Contains(pe.val, "index out of range [-1]") && len(pe.stack) > 0 && strings.HasSuffix(pe.stack[0], "mergeClusters") && ev.Known(fPanicReverseIdx) {
+		return fPanicReverseIdx
+	}
 	// finding (also C01-indic-final-reordering-base-at-end): info[base] read with base == end in
 	// finalReorderingSyllableIndic (user feature 'pref' on a syllable ending in a halant).
 	if strings.Contains(pe.val, "index out of range") && len(pe.stack) > 0 && strings.HasSuffix(pe.stack[0], "finalReorderingSyllableIndic") && ev.Known(fPanicIndic) {
@@ -320,9 +351,29 @@ func triage(fe *fontEntry, c *Case, got portResult, want refResult) class {
 	}
 	// skew: the port's USE table (generated from the corpus module's port of gen-use-table.py:
 	// "|| UGC == Cn") classes unassigned code points as WJ, which never starts a cluster, so a
-	// following mark forms a broken cluster and gets a dotted circle; libharfbuzz 6.0.0 classes
-	// them O. Weaker predicate: equal glyph ids once dotted circles are removed.
-	if dc, ok := fe.face.NominalGlyph(0x25CC); ok && len(port) != len(ref) {
+	// following mark forms a broken cluster (dotted circle inserted when the font has one, no
+	// pre-base reordering around the unassigned character); libharfbuzz 6.0.0 classes them O.
+	// Precondition: USE script and an unassigned code point in the item. Weaker predicate: the
+	// same multiset of glyph ids once dotted circles are removed.
+	ranged := false
+	for _, ft := range c.Features {
+		if ft.Start != 0 || ft.End >= 0 {
+			ranged = true
+		}
+	}
+	// skew: user features with a cluster range on an AAT (morx) font: libharfbuzz 6.0.0 applies
+	// them to the whole buffer, the upstream the port tracks honours the range
+	// (in-house/tests/macos.tests:10, "--features=-liga[3:5]" on LucidaGrande, expects the ligature
+	// to be suppressed inside the range only).
+	if fe.traits.Morx && ranged {
+		return class{sAATRanges, true}
+	}
+	// finding (reverse graphemes, see below) with ranged features: the unmerged clusters also
+	// decide which glyphs a ranged feature covers.
+	if c.Cluster == 1 && graphemesReversed(got.Script, got.Dir) && ranged && ev.Known(fReverseGraphemes) {
+		return class{fReverseGraphemes, true}
+	}
+	if useScripts[got.Script] {
 		hasCn := false
 		for _, r := range c.item() {
 			if !isAssigned(r) {
@@ -330,13 +381,15 @@ func triage(fe *fontEntry, c *Case, got portResult, want refResult) class {
 			}
 		}
 		if hasCn {
+			dc, hasDC := fe.face.NominalGlyph(0x25CC)
 			strip := func(gs []G) []uint32 {
 				var out []uint32
 				for _, g := range gs {
-					if g.ID != uint32(dc) {
+					if !hasDC || g.ID != uint32(dc) {
 						out = append(out, g.ID)
 					}
 				}
+				sort.Slice(out, func(i, j int) bool { return out[i] < out[j] })
 				return out
 			}
 			a, b := strip(port), strip(ref)
@@ -358,7 +411,7 @@ func triage(fe *fontEntry, c *Case, got portResult, want refResult) class {
 		return class{}
 	}
 	var allowed fieldMask
-	var offsetTol int32
+	var offsetTol, advanceTol int32
 	var ids []string
 	add := func(id string, m fieldMask) {
 		allowed |= m
@@ -384,6 +437,11 @@ func triage(fe *fontEntry, c *Case, got portResult, want refResult) class {
 	if vertical && coordsSet(got) && fe.traits.Glyf && !fe.traits.Vertical && !f.hasVORG && ev.Known(fVOrigin) {
 		add(fVOrigin, fOffset)
 	}
+	// finding: VORG vertical origins of a variable font are not varied (VVAR vertical-origin
+	// delta-set mapping is not read).
+	if vertical && coordsSet(got) && f.hasVORG && ev.Known(fVorgVar) {
+		add(fVorgVar, fOffset)
+	}
 	// root cause "the font functions disagree on the extents of a glyph of the output": fallback
 	// mark positioning is computed from the extents.
 	if got.font != nil && sameOn(port, ref, fID) {
@@ -400,7 +458,7 @@ func triage(fe *fontEntry, c *Case, got portResult, want refResult) class {
 			// finding: an empty glyf glyph gets XBearing = lsb instead of zero extents.
 			add(fEmptyExtents, fOffset)
 		case d.within1 && coordsSet(got) && ev.Known(fVarRounding):
-			offsetTol = 2
+			offsetTol, advanceTol = 2, 1
 			ids = append(ids, fVarRounding)
 		case (d.portNone || !d.within1) && !d.emptyGlyph && ev.Known(fExtentsOther):
 			// finding (owned by C10): no extents for CFF2 variable glyphs, COLR clip boxes, ...
@@ -411,9 +469,18 @@ func triage(fe *fontEntry, c *Case, got portResult, want refResult) class {
 	// unrounded advance, y from truncated extents; extents width/height rounded separately): the
 	// port follows an older upstream convention pinned by its own ported unit tests
 	// (TestAdvanceTtVarCompV expects 291/1012 where libharfbuzz 6.0.0 gives 292/1013).
-	if coordsSet(got) && fe.traits.Glyf && offsetTol == 0 && allowed&fOffset == 0 && ev.Known(fVarRounding) {
-		offsetTol = 2
+	if coordsSet(got) && (fe.traits.Glyf || fe.traits.CFF2) && offsetTol == 0 && ev.Known(fVarRounding) {
+		// (also: deltas of HVAR advances and of GPOS variation devices are accumulated in another
+		// order of float32 operations; one unit when the sum is close to a half)
+		offsetTol, advanceTol = 2, 1
 		ids = append(ids, fVarRounding)
+	}
+	// finding: vertical origin without vmtx/VORG: y = y_bearing + (ascender - descender + height) / 2
+	// is truncated toward zero where upstream shifts (rounds toward -infinity): one unit off when
+	// the sum is odd and y negative.
+	if vertical && fe.traits.Glyf && !fe.traits.Vertical && !f.hasVORG && offsetTol == 0 && allowed&fOffset == 0 && ev.Known(fVOriginFloor) {
+		offsetTol = 1
+		ids = append(ids, fVOriginFloor)
 	}
 	if len(ids) == 0 {
 		return class{}
@@ -422,14 +489,18 @@ func triage(fe *fontEntry, c *Case, got portResult, want refResult) class {
 	if offsetTol > 0 {
 		must &^= fOffset // compared with the tolerance below
 	}
+	if advanceTol > 0 {
+		must &^= fAdvance
+	}
 	if !sameOn(port, ref, must) {
 		return class{}
 	}
-	if allowed&fOffset == 0 {
-		for i := range port {
-			if abs32(port[i].XOff-ref[i].XOff) > offsetTol || abs32(port[i].YOff-ref[i].YOff) > offsetTol {
-				return class{}
-			}
+	for i := range port {
+		if allowed&fOffset == 0 && (abs32(port[i].XOff-ref[i].XOff) > offsetTol || abs32(port[i].YOff-ref[i].YOff) > offsetTol) {
+			return class{}
+		}
+		if allowed&fAdvance == 0 && (abs32(port[i].XAdv-ref[i].XAdv) > advanceTol || abs32(port[i].YAdv-ref[i].YAdv) > advanceTol) {
+			return class{}
 		}
 	}
 	for _, id := range ids[1:] {
